@@ -417,7 +417,13 @@ func C19(c *Ctx) {
 func c19Strata() []*gast.Grammar {
 	mk := func(rules ...*gast.Rule) *gast.Grammar { return &gast.Grammar{Rules: rules} }
 	r := func(n string, e *gast.Expr) *gast.Rule { return &gast.Rule{Name: n, Expr: e} }
+	lab := func(n, lit string) *gast.Expr { return gast.Lab(n, gast.L(lit)) }
 	return []*gast.Grammar{
+		// a label bound twice in one scope next to other labels: written like that, and produced by
+		// -optimize-grammar when it inlines an unlabelled leaf rule whose sequence binds a label the host
+		// binds too (the emitted code need not compile - known finding F07 - but it is the same every time)
+		mk(r("A", gast.A(gast.S(lab("v", "x"), lab("v", "y"), lab("u", "z"), lab("w", "q"), lab("t", "r")), 1, mon.Spec{})), r("B", gast.S(gast.AndC(2, mon.Spec{}), gast.Ref("A")))),
+		mk(r("A", gast.A(gast.S(lab("v", "x"), gast.Ref("B"), lab("w", "q"), gast.Ref("C")), 1, mon.Spec{})), r("B", gast.S(lab("v", "y"), lab("u", "z"))), r("C", gast.A(gast.S(lab("w", "k"), lab("t", "l"), lab("s", "m")), 2, mon.Spec{}))),
 		// overlapping classes and literals side by side: merged and de-duplicated by the optimizer
 		mk(r("S", gast.Plus(gast.C(gast.Cl(gast.Chars("abcde")), gast.Cl(gast.Chars("cdefg")), gast.L("_"), gast.L("a"),
 			gast.Cl(&gast.ClassSpec{UClasses: []string{"L", "Nd"}}), gast.Cl(&gast.ClassSpec{UClasses: []string{"Nd", "Mn", "Pc", "L"}}))))),
